@@ -67,23 +67,34 @@ theorem protectLoop_perm (less) (fuel : Nat) (a : Ix) (p x b : Nat) : (protectLo
     · exact Array.Perm.refl _
     · exact (ih ..).trans (sw_perm ..)
 
+theorem choosePivot_perm (less) (a : Ix) (lo hi : Nat) : (choosePivot less a lo hi).Perm a := by
+  unfold choosePivot
+  exact (medianOfThree_perm ..).trans (ite_perm (((medianOfThree_perm ..).trans (medianOfThree_perm ..)).trans (medianOfThree_perm ..)) (Array.Perm.refl _))
+
+theorem dupsBlock_perm (less) (a : Ix) (lo hi m b c : Nat) : (dupsBlock less a lo hi m b c).a.Perm a := by
+  unfold dupsBlock dups3 dups1
+  simp only []
+  split <;> split <;> first | exact (sw_perm ..).trans (sw_perm ..) | exact sw_perm .. | exact Array.Perm.refl _
+
 theorem doPivot_perm (less) (a : Ix) (lo hi : Nat) : (doPivot less a lo hi).1.Perm a := by
   unfold doPivot
   simp only []
-  -- stage 0: ninther
-  generalize hA0 : (if hi - lo > 40 then _ else a) = a0
-  have h0 : a0.Perm a := by
-    subst hA0
-    exact ite_perm (((medianOfThree_perm ..).trans (medianOfThree_perm ..)).trans (medianOfThree_perm ..)) (Array.Perm.refl _)
-  generalize hA1 : medianOfThree less a0 lo ((lo + hi) / 2) (hi - 1) = a1
-  have h1 : a1.Perm a := by subst hA1; exact (medianOfThree_perm ..).trans h0
-  generalize hX : scanUp _ _ _ _ = x
-  have hp := pivotLoop_perm less (a1.size + 1) a1 lo x (hi - 1)
-  generalize pivotLoop less (a1.size + 1) a1 lo x (hi - 1) = r at hp
-  obtain ⟨a2, b, c⟩ := r
-  simp only [] at hp ⊢
-  have h2 : a2.Perm a := hp.trans h1
-  sorry
+  have h1 := choosePivot_perm less a lo hi
+  generalize choosePivot less a lo hi = a1 at h1 ⊢
+  generalize scanUp _ _ _ _ = x
+  have h2 := pivotLoop_perm less (a1.size + 1) a1 lo x (hi - 1)
+  generalize pivotLoop less (a1.size + 1) a1 lo x (hi - 1) = r at h2 ⊢
+  have h3 : (if (!decide (hi - r.2.2 < 5) && decide (hi - r.2.2 < (hi - lo) / 4)) = true then dupsBlock less r.1 lo hi ((lo + hi) / 2) r.2.1 r.2.2
+      else (⟨r.1, r.2.1, r.2.2, decide (hi - r.2.2 < 5)⟩ : PState)).a.Perm r.1 := by
+    split
+    · exact dupsBlock_perm ..
+    · exact Array.Perm.refl _
+  generalize (if (!decide (hi - r.2.2 < 5) && decide (hi - r.2.2 < (hi - lo) / 4)) = true then dupsBlock less r.1 lo hi ((lo + hi) / 2) r.2.1 r.2.2
+      else (⟨r.1, r.2.1, r.2.2, decide (hi - r.2.2 < 5)⟩ : PState)) = st at h3 ⊢
+  refine (sw_perm ..).trans ?_
+  split
+  · exact ((protectLoop_perm ..).trans h3).trans (h2.trans h1)
+  · exact h3.trans (h2.trans h1)
 
 theorem quickSort_perm (less) (fuel : Nat) (a : Ix) (lo hi depth : Nat) :
     (quickSort less fuel a lo hi depth).Perm a := by
